@@ -39,7 +39,7 @@ def runner(prop, fam, tier, seed, replay=None):
         ev["coverage"]["corpus"] = st
         if st.get("circuit_breaker_tripped"):
             ev["coverage"]["note"] = "listener died or fell silent on many datagrams: the rest of the corpus was skipped (see skipped_events)"
-        tmp = ep + ".tmp"
+        tmp = ep + ".tmp%d" % os.getpid()
         json.dump(ev, open(tmp, "w"), indent=1, sort_keys=True)
         os.replace(tmp, ep)
     except Exception as e:  # evidence decoration only; the verdict stands
